@@ -153,7 +153,7 @@ pub fn c10(ctx: &Ctx) -> i32 {
     let cov = json!({
         "evaluations": c.submissions_checked,
         "distinct_nontrivial": out.distinct.len().max(0),
-        "rule": "cases = single instruction submissions between steps, each compared through a complete observable snapshot of the environment (live book views, orders, trades, all recorded series, cached level-2 data, pending-queue length via hook H1) taken before and after; instructions are generated so that they WOULD trade / cancel / re-price if applied at once; distinct = distinct (batch shape, processing order) hashes of the steps in between; non-trivial = steps with at least 2 instructions",
+        "rule": "cases = single instruction submissions between steps, each compared through a complete observable snapshot of the environment (live book views, orders, trades, all recorded series, cached level-2 data, pending-queue length via hook H1) taken before and after; instructions are generated so that they WOULD trade / cancel / re-price if applied at once; distinct = distinct (published state of the addressed asset, instruction) pairs; non-trivial = the addressed asset's book was non-empty at submission",
         "samples": out.samples,
         "census": c,
         "sessions": c.sessions,
